@@ -1,37 +1,19 @@
 (* LegalHistFastRun.v -- C02 for the model Fast.v of FastMicroStep::step on charts with pseudo-states: every state
-   of every run has a legal configuration, for charts of wf_histb whose deep histories have single-target
-   default transitions (wf_fastb); and the witness that this extra condition cannot be dropped (a defect of
-   FastMicroStep.cpp: only the first target of a deep history's default transition gets its ancestors). *)
+   of every run has a legal configuration, for every chart of wf_histb (wf_fastb = wf_histb); and the document on
+   which the pinned FastMicroStep.cpp went wrong (only the first target of a deep history's default transition
+   got its ancestors; repaired, and Fast.v models the repaired code): now legal, equal to the large engine. *)
 From V Require Import Base NameMatch Chart Exec Large Fast LargeLemmas Interp Legal SetLemmas LegalAbstract LegalLarge LegalRun
      WfCore LegalOracle LegalHistBase LegalHistEntry LegalHistStep LegalHistRun LegalHistWf LegalHistOracle LegalHistFast.
 Local Open Scope nat_scope.
 
-(* the boolean form of FastOK *)
-Definition whb_deep_default_single (c : fchart) : bool :=
-  forallb (fun i => match fs_type (st c i) with
-                    | FHistDeep => match fs_trans (st c i) with
-                                   | ti :: _ => match ft_targets (tr c ti) with [_] => true | _ => false end
-                                   | [] => true
-                                   end
-                    | _ => true
-                    end) (seq 0 (nstates c)).
-Definition wf_fastb (c : fchart) : bool := wf_histb c && whb_deep_default_single c.
-
-Lemma whb_deep_default_single_sound c : whb_deep_default_single c = true -> FastOK c.
-Proof.
-  intros H i ti r Hd Htr. unfold whb_deep_default_single in H. rewrite forallb_forall in H.
-  unfold deepS in Hd.
-  assert (Hi : i < nstates c).
-  { destruct (Nat.lt_ge_cases i (nstates c)) as [Hi|Hi]; [exact Hi|]. unfold st in Hd. rewrite nth_overflow in Hd by exact Hi. discriminate. }
-  specialize (H i ltac:(apply in_seq; lia)). destruct (fs_type (st c i)); try discriminate. rewrite Htr in H.
-  destruct (ft_targets (tr c ti)) as [|g [|? ?]]; try discriminate. now exists g.
-Qed.
+(* the reach of the fast-engine theorems: the same charts as for the large engine (the name is kept for the
+   extracted checker command) *)
+Definition wf_fastb (c : fchart) : bool := wf_histb c.
 
 Section FRun.
 Variable c : fchart.
 Variable xv : ex_variant.
 Hypothesis W : WFH c.
-Hypothesis WF1 : FastOK c.
 Hypothesis root_compound : fs_type (st c 0) = FCompound.
 
 Let n := nstates c.
@@ -212,7 +194,7 @@ Proof.
   destruct (fmicrostep xv c l0 (emit TMsB x1) tg ex sel false) as [l1 x2].
   cbn [fst snd] in *. change (l_cfg l0) with (l_cfg l) in Hm.
   assert (HF : HInv c (l_cfg l) ex tg (QE5 c (l_cfg l) sel) n (FEfin c (l_cfg l) ex (fhist_after l0 ex false) tg sel)).
-  { apply (FInv_fin c W WF1 (l_cfg l) ex (fhist_after l0 ex false) tg sel).
+  { apply (FInv_fin c W (l_cfg l) ex (fhist_after l0 ex false) tg sel).
     - exact (htargets_bound c W sel).
     - exact HH'.
     - exact (HE0_uniq_step c W (l_cfg l) sel HL HBn HBp Hsrc Hok).
@@ -241,7 +223,7 @@ Proof.
   destruct (fmicrostep xv c l x (fs_completion (st c 0)) [] [] true) as [l1 x1].
   cbn [fst] in *. rewrite Hnil in Hm. unfold fhist_after in *.
   assert (HI : HInv c [] [] (fs_completion (st c 0)) QT n (FEfin c [] [] (l_hist l) (fs_completion (st c 0)) [])).
-  { apply (FInv_fin c W WF1 [] [] (l_hist l) (fs_completion (st c 0)) []); unfold QT; auto.
+  { apply (FInv_fin c W [] [] (l_hist l) (fs_completion (st c 0)) []); unfold QT; auto.
     - exact (hinit_tg_bound c W root_compound).
     - exact (hinit_E0_uniq c W root_compound).
     - intros y [].
@@ -309,39 +291,34 @@ End FRun.
 Theorem fast_run_legal_history_strong c xv : wf_fastb c = true -> fs_type (st c 0) = FCompound ->
   forall fuel evs, CfgOKH c (fst (run_loop c lstate (fast_step xv c) l_cfg fuel l_pristine x_init evs)).
 Proof.
-  intros H R fuel evs. unfold wf_fastb in H. apply andb_true_iff in H as [H1 H2].
-  pose proof (wf_histb_sound c H1) as W.
-  apply (fast_run_states_legal_h c xv W (whb_deep_default_single_sound c H2) R). now apply pristine_ok_h.
+  intros H R fuel evs. unfold wf_fastb in H. pose proof (wf_histb_sound c H) as W.
+  apply (fast_run_states_legal_h c xv W R). now apply pristine_ok_h.
 Qed.
 
 Theorem fast_run_legal_history c xv : wf_fastb c = true -> fs_type (st c 0) = FCompound ->
   forall fuel evs, CfgOK c (fst (run_loop c lstate (fast_step xv c) l_cfg fuel l_pristine x_init evs)).
 Proof.
   intros H R fuel evs. apply CfgOKH_CfgOK; [|now apply fast_run_legal_history_strong].
-  unfold wf_fastb in H. apply andb_true_iff in H as [H1 _]. now apply wf_histb_sound.
+  unfold wf_fastb in H. now apply wf_histb_sound.
 Qed.
 
 Theorem fast_step_legal_history c xv : wf_fastb c = true -> fs_type (st c 0) = FCompound ->
   forall l x, CfgOKH c l -> CfgOKH c (fst (fst (fast_step xv c l x))).
-Proof.
-  intros H R. unfold wf_fastb in H. apply andb_true_iff in H as [H1 H2].
-  exact (fast_step_legal_h c xv (wf_histb_sound c H1) (whb_deep_default_single_sound c H2) R).
-Qed.
+Proof. intros H R. unfold wf_fastb in H. exact (fast_step_legal_h c xv (wf_histb_sound c H) R). Qed.
+
+Lemma wf_fastb_histb c : wf_fastb c = wf_histb c.
+Proof. reflexivity. Qed.
 
 (* every chart without history (wf_initb) is inside *)
 Lemma wf_initb_fastb c : wf_initb c = true -> wf_fastb c = true.
-Proof.
-  unfold wf_initb, wf_fastb. intros H. apply andb_true_iff in H as [H1 H2]. rewrite H1. cbn [andb].
-  unfold whb_deep_default_single. apply forallb_forall. intros i Hi.
-  unfold no_histb in H2. rewrite forallb_forall in H2. specialize (H2 i Hi).
-  destruct (fs_type (st c i)); try reflexivity. discriminate.
-Qed.
+Proof. exact (wf_initb_histb c). Qed.
 
-(* ------------------------------------------------------------------ the defect the extra condition excludes *)
+(* ------------------------------------------------------------------ the repaired defect *)
 Local Open Scope N_scope.
 
 (* s1{deep h20 (default "s4 s7"), parallel s2{s3{s10{s4, s12}}, s6{s13, s11{s14, s7}}}}, s9 --e--> h20.
-   FastMicroStep adds the ancestors of s4 only: s7 becomes active without its parent s11. *)
+   The pinned FastMicroStep added the ancestors of s4 only: s7 became active without its parent s11.  The
+   repaired code (modelled by Fast.v) enters s11 as well: the same legal configuration as the large engine. *)
 Definition fd_tree : tree :=
   TNode KScxml 0 (Some [9]) [] [] [] []
     [TNode KState 1 None [] [] [] []
@@ -351,13 +328,13 @@ Definition fd_tree : tree :=
            TNode KState 6 None [] [] [] [] [TNode KState 13 None [] [] [] [] []; TNode KState 11 None [] [] [] [] [TNode KState 14 None [] [] [] [] []; TNode KState 7 None [] [] [] [] []]]]];
      TNode KState 9 None [htr_ 104 (Some [101]) (Some [20]) false] [] [] [] []].
 
-Theorem fast_deep_history_default_refuted :
-  exists t evs fuel,
-    let c := flatten false t in
-    wf_histb c = true /\ fs_type (st c 0%nat) = FCompound /\ whb_deep_default_single c = false /\
-    legal_configb c (l_cfg (fst (run_loop c lstate (fast_step ex_fixed c) l_cfg fuel l_pristine x_init evs))) = false /\
-    legal_configb c (l_cfg (fst (run_loop c lstate (large_step lg_fixed ex_fixed c) l_cfg fuel l_pristine x_init evs))) = true.
-Proof. exists fd_tree, [[101]], 20%nat. vm_compute. repeat split; reflexivity. Qed.
+Theorem fast_deep_history_default_repaired :
+  let c := flatten false fd_tree in
+  let cf := l_cfg (fst (run_loop c lstate (fast_step ex_fixed c) l_cfg 20%nat l_pristine x_init [[101]])) in
+  let cl := l_cfg (fst (run_loop c lstate (large_step lg_fixed ex_fixed c) l_cfg 20%nat l_pristine x_init [[101]])) in
+  wf_fastb c = true /\ fs_type (st c 0%nat) = FCompound /\
+  legal_configb c cf = true /\ cf = cl /\ cf = [0; 1; 3; 4; 5; 6; 8; 10; 12]%nat.
+Proof. vm_compute. repeat split; reflexivity. Qed.
 
 (* non-vacuity: the documents of LegalHistOracle.v with histories pass wf_fastb *)
 Example fast_hypotheses_satisfiable :
